@@ -1673,7 +1673,11 @@ pub fn check_c07(ix: &Ix<'_>, v: &mut Vec<Violation>) {
             let disconnect_to_v3_client = out.plan.role == crate::world::Role::C3 && ix.sent.iter().any(|s| s.conn == conn && s.seq <= *sq && matches!(s.pkt, Some(Pkt::Disconnect(_))));
             // nothing may follow the peer's own DISCONNECT
             let after_disconnect = ix.sent.iter().find(|s| s.conn == conn && matches!(s.pkt, Some(Pkt::Disconnect(_)))).is_some_and(|d| ix.sent.iter().any(|s| s.conn == conn && s.seq > d.seq && s.seq <= *sq));
-            second_connect || alias || dup_id || disconnect_to_v3_client || after_disconnect
+            // violations injected on purpose by the generator (C15 family)
+            let tagged = out.plan.tags.iter().any(|t| {
+                ["too-large", "receive-maximum", "qos-not-supported", "retain-not-supported", "sub-ids-not-supported", "unknown-alias", "inject:violation", "bad-expiry"].iter().any(|k| t.contains(k))
+            });
+            second_connect || alias || dup_id || disconnect_to_v3_client || after_disconnect || tagged
         };
         let cause_names = format!(
             "{}{}{}{}{}{}",
@@ -1696,6 +1700,8 @@ pub fn check_c07(ix: &Ix<'_>, v: &mut Vec<Violation>) {
             StopClass::Protocol(m) => {
                 if m.contains("Decode(UnexpectedPayload)") {
                     corrupt_delivered || violation_sent || app_err_cause || peer_gone_cause
+                } else if m.contains("Decode(MaxSizeExceeded") {
+                    violation_sent || corrupt_delivered
                 } else if m.contains("Decode(") {
                     corrupt_delivered
                 } else if m.contains("KeepAlive") {
@@ -1722,6 +1728,59 @@ pub fn check_c07(ix: &Ix<'_>, v: &mut Vec<Violation>) {
                 format!("Stop({class:?}) does not name any cause present in the history (P=peer gone/local close, A=handler failed, D=undecodable input, V=protocol violation, K=keep-alive configured, S=streamed send)"),
                 *sq,
             );
+        }
+    }
+    // (A') each cause ends the connection by itself: it is over before the closing FIN of the run
+    if let (Some(settle), Some(fin)) = (ix.settle_seq, ix.fin_seq) {
+        let ended_before_fin = ix
+            .stops
+            .iter()
+            .filter(|s| s.1 == conn)
+            .map(|s| s.0)
+            .chain(ix.conn_done.iter().filter(|c| c.1 == conn).map(|c| c.0))
+            .any(|s| s < fin);
+        let ended_before_settle = ix
+            .stops
+            .iter()
+            .filter(|s| s.1 == conn)
+            .map(|s| s.0)
+            .chain(ix.conn_done.iter().filter(|c| c.1 == conn).map(|c| c.0))
+            .any(|s| s < settle);
+        if !ended_before_settle {
+            // a failing handler ends the connection at once, whatever other handlers are doing
+            // (nothing else is needed to process its error: the scripted part ran to quiescence)
+            if let Some(g) = ix.gates.iter().find(|g| g.conn == conn && matches!(g.kind, GateKind::Publish | GateKind::Proto) && matches!(&g.exit, Some((xs, Outcome::Err)) if *xs < settle)) {
+                viol(
+                    v,
+                    "C07",
+                    format!("C07/cause-did-not-end-connection/{role}/failed-handler-before-quiescence"),
+                    format!("handler gate {} failed at step {} but the connection was still up when everything had gone quiet (other handlers still parked)", g.id, g.exit.as_ref().map_or(0, |x| x.0)),
+                    settle,
+                );
+            }
+        }
+        if !ended_before_fin {
+            let failed_handler = ix.gates.iter().find(|g| {
+                g.conn == conn
+                    && matches!(g.kind, GateKind::Publish | GateKind::Proto)
+                    && match &g.exit {
+                        Some((xs, Outcome::Err)) => *xs < settle,
+                        Some((xs, Outcome::Neg(_))) => *xs < settle && g.kind == GateKind::Publish && (ix.ver == Ver::V3 || matches!(&g.desc, GateDesc::Publish(p) if p.qos == 0)),
+                        _ => false,
+                    }
+            });
+            let corrupt = ix.sent.iter().find(|s| s.conn == conn && s.corrupt && s.delivered.is_some_and(|d| d < settle));
+            let closed_locally = ix.ops.iter().find(|o| o.start < settle && (o.brief.starts_with("Close") || o.brief.starts_with("ForceClose")));
+            let cause = if let Some(g) = failed_handler {
+                Some(("failed-handler", format!("handler gate {} failed at step {}", g.id, g.exit.as_ref().map_or(0, |x| x.0))))
+            } else if let Some(c) = corrupt {
+                Some(("undecodable-input", format!("undecodable input delivered at step {:?}", c.delivered)))
+            } else {
+                closed_locally.map(|o| ("local-close", format!("{} at step {}", o.brief, o.start)))
+            };
+            if let Some((k, what)) = cause {
+                viol(v, "C07", format!("C07/cause-did-not-end-connection/{role}/{k}"), format!("{what}, yet the connection was still up when the run's closing FIN was sent"), fin);
+            }
         }
     }
     // (C) the connection task completes
@@ -1788,6 +1847,117 @@ pub fn check_c07(ix: &Ix<'_>, v: &mut Vec<Violation>) {
                 && d < h
             {
                 viol(v, "C07", format!("C07/handler-cancelled-before-stop/{role}"), format!("{what} was cancelled at step {d}, before the Stop notification had been handled (step {})", if h == u64::MAX { "never".to_string() } else { h.to_string() }), d);
+            }
+        }
+    }
+}
+
+
+// ------------------------------------------------------------------------------------------
+// C15: MQTT 5 DISCONNECT - at most once, never after the peer's, names the cause
+// (at most once / nothing after it: monitors, on every run of every family)
+
+pub fn check_c15(ix: &Ix<'_>, v: &mut Vec<Violation>) {
+    if ix.ver != Ver::V5 {
+        return;
+    }
+    let role = ix.role();
+    let out = ix.out;
+    let conn = 0usize;
+    if out.budget_hit || out.panic.is_some() {
+        return;
+    }
+    let discs: Vec<(&EpP, &crate::refcodec::Disconnect)> = ix
+        .eps
+        .iter()
+        .filter(|e| e.conn == conn)
+        .filter_map(|e| match &e.pkt {
+            Pkt::Disconnect(d) => Some((e, d)),
+            _ => None,
+        })
+        .collect();
+    let stop = ix.stops.iter().find(|s| s.1 == conn);
+    let close_ops: Vec<&OpRec> = ix.ops.iter().filter(|o| o.brief.contains("Close")).collect();
+    // application-supplied packets: close_with_reason, protocol handler asking to disconnect with a code,
+    // control service answering Stop with its own DISCONNECT
+    let app_supplied = close_ops.iter().any(|o| o.brief.starts_with("CloseReason"))
+        || ix.gates.iter().any(|g| g.conn == conn && matches!(g.exit, Some((_, Outcome::Disconnect(_) | Outcome::OwnDisconnect(_)))));
+
+    // (2) nothing after the peer's DISCONNECT has been received
+    let peer_disc_gate = ix.gates.iter().find(|g| g.conn == conn && matches!(&g.desc, GateDesc::Proto { brief, .. } if brief.starts_with("DISCONNECT")));
+    if let Some(g) = peer_disc_gate {
+        let local_before = close_ops.iter().any(|o| o.start <= g.enter)
+            || stop.is_some_and(|s| s.0 <= g.enter)
+            || ix.gates.iter().any(|x| x.conn == conn && x.id != g.id && matches!(x.exit, Some((xs, Outcome::Disconnect(_) | Outcome::Err)) if xs <= g.enter));
+        let bad_expiry = out.plan.tags.iter().any(|t| t == "inject:peer-disconnect-bad-expiry");
+        if !local_before {
+            for (e, d) in &discs {
+                if e.seq > g.enter && !(bad_expiry && d.code == 0x82) {
+                    viol(v, "C15", format!("C15/disconnect-after-peer-disconnect/{role}"), format!("DISCONNECT 0x{:02x} written after the peer's DISCONNECT had been received (step {})", d.code, g.enter), e.seq);
+                }
+            }
+        }
+    }
+
+    // (4)+(5) the endpoint ends the connection because of an error and the application supplies no packet
+    if let Some((sq, _, class)) = stop
+        && !app_supplied
+        && close_ops.is_empty()
+        && peer_disc_gate.is_none_or(|g| g.enter > *sq)
+        && !ix.sent.iter().any(|s| s.conn == conn && s.seq < *sq && matches!(s.pkt, Some(Pkt::Disconnect(_))))
+    {
+        let expected: Option<(u8, &str)> = match class {
+            StopClass::Protocol(m) => {
+                if m.contains("KeepAliveTimeout") {
+                    Some((0x8d, "keep-alive"))
+                } else if m.contains("MaxSizeExceeded") {
+                    Some((0x95, "packet-too-large"))
+                } else if m.contains("Pub_3_3_4_7") || m.contains("Pub_3_3_4_9") {
+                    Some((0x93, "receive-maximum"))
+                } else if m.contains("Connack_3_2_2_11") {
+                    Some((0x9b, "qos-not-supported"))
+                } else if m.contains("Connack_3_2_2_14") {
+                    Some((0x9a, "retain-not-supported"))
+                } else if m.contains("Connack_3_2_2_3_12") {
+                    Some((0xa1, "subscription-ids-not-supported"))
+                } else if m.contains("TopicAliasInvalid") || m.contains("nknown topic alias") {
+                    Some((0x94, "unknown-topic-alias"))
+                } else {
+                    None
+                }
+            }
+            _ => None,
+        };
+        let is_error = matches!(class, StopClass::Protocol(_) | StopClass::AppError);
+        for (e, d) in &discs {
+            if is_error && d.code == 0x00 {
+                viol(v, "C15", format!("C15/normal-disconnect-on-error/{role}"), format!("the connection ended with {class:?} and the application supplied no packet, yet DISCONNECT claims normal disconnection"), e.seq);
+            }
+            if let Some((code, what)) = expected
+                && d.code != code
+            {
+                viol(v, "C15", format!("C15/wrong-reason-code/{role}/{what}"), format!("cause {what}: DISCONNECT carries 0x{:02x}, MQTT 5 assigns 0x{code:02x}", d.code), e.seq);
+            }
+        }
+        // a single injected cause with a dedicated code must be recognised as that cause
+        let codes: Vec<(String, u8)> = out
+            .plan
+            .tags
+            .iter()
+            .filter_map(|t| {
+                let mut it = t.rsplitn(2, ":0x");
+                let code = it.next().and_then(|c| u8::from_str_radix(c, 16).ok())?;
+                Some((it.next()?.trim_start_matches("inject:").to_string(), code))
+            })
+            .collect();
+        if out.plan.tags.len() == 1
+            && let Some((what, code)) = codes.first()
+            && matches!(class, StopClass::Protocol(_))
+        {
+            for (e, d) in &discs {
+                if d.code != *code {
+                    viol(v, "C15", format!("C15/wrong-reason-code/{role}/{what}"), format!("only {what} was injected: DISCONNECT carries 0x{:02x}, MQTT 5 assigns 0x{code:02x} ({class:?})", d.code), e.seq);
+                }
             }
         }
     }
@@ -1862,6 +2032,11 @@ pub fn check_all(out: &RunOut) -> Vec<Violation> {
             check_c16(&ix, &mut v);
         }
         "C07" => {
+            check_c07(&ix, &mut v);
+            check_c15(&ix, &mut v);
+        }
+        "C15" => {
+            check_c15(&ix, &mut v);
             check_c07(&ix, &mut v);
         }
         "C05" | "C06" | "C13" | "C14" | "C08" => {
